@@ -37,7 +37,7 @@ def run_one(m, run_tests=False, repo="/repo"):
             r = subprocess.run([os.path.join(ROOT, "bin", "wpverif"), "-prop", prop, "-repo", scratch, "-verif", vdir, "-tier", "quick"],
                                env=ENV, capture_output=True, text=True)
             fired = r.returncode == 1 and "VIOLATION property=%s" % prop in r.stdout
-            named = all(k in r.stdout for k in m.get("expect", []))
+            named = prop != m["props"][0] or all(k in r.stdout for k in m.get("expect", []))
             if not fired:
                 return (m["id"], "MISSED", "%s stayed silent (exit %d)" % (prop, r.returncode))
             if not named:
